@@ -47,6 +47,11 @@ func genConfig(t *rapid.T) Config {
 	nCrash := Weighted(t, "nCrash", []int{45, 30, 15, 10})
 	for i := 0; i < nCrash; i++ {
 		cr := Crash{Member: rapid.IntRange(0, cfg.N-1).Draw(t, "crashMember"), RestartAfter: rapid.IntRange(0, 40).Draw(t, "restartAfter")}
+		if Chance(t, "longOutage?", 25) {
+			// beyond the validity window of what the member had shared or sent
+			// (120 blocks for the Notary bootstrap data)
+			cr.RestartAfter = rapid.IntRange(121, 200).Draw(t, "restartAfterLong")
+		}
 		if Chance(t, "crashAfterWrite?", 60) {
 			cr.AfterWrites = rapid.IntRange(1, 25).Draw(t, "afterWrites")
 		} else {
